@@ -1573,3 +1573,189 @@ func deferredUnlockBefore(f *ssa.Function, at ssa.Instruction, fld *types.Var) b
 	})
 	return found
 }
+
+// ======== rules added after the third round (weakest properties) ========
+
+// C05.8: a key roll re-initialises every per-key-phase field; the Retry tag buffer is reset before its mutex is released.
+func c05PhaseStateAndRetryBuf(c *Ctx) {
+	const R = "C05.8"
+	rk := c.fn(hsk, "updatableAEAD", "rollKeys")
+	st := c.named(hsk, "updatableAEAD").Type().Underlying().(*types.Struct)
+	stored := map[string]bool{}
+	eachInstr(rk, func(in ssa.Instruction) {
+		if fl := storedField(in); fl != nil {
+			stored[fl.Name()] = true
+		}
+	})
+	n := 0
+	for i := 0; i < st.NumFields(); i++ {
+		name := st.Field(i).Name()
+		if !strings.HasSuffix(name, "WithCurrentKey") {
+			continue
+		}
+		n++
+		c.Check(stored[name], R, "reset:rollKeys re-initialises "+name, c.P.Pos(rk.Pos()), "per-key-phase state carried over a key update breaks the RFC 9001 §6.2 checks (ACK in the old phase for a packet of the new one; update only after confirmation)")
+	}
+	c.Floor(R, "per-key-phase fields (…WithCurrentKey)", n, 4)
+	// Retry integrity tag: deferred Reset of the shared buffer runs before the deferred Unlock (LIFO: Unlock registered first)
+	g := c.fn(hsk, "", "GetRetryIntegrityTag")
+	var unlockD, resetD ssa.Instruction
+	eachInstr(g, func(in ssa.Instruction) {
+		d, ok := in.(*ssa.Defer)
+		if !ok {
+			return
+		}
+		if o := calleeObj(&d.Call); o != nil {
+			if o.Name() == "Unlock" && o.Pkg() != nil && o.Pkg().Path() == "sync" {
+				unlockD = in
+			}
+			if o.Name() == "Reset" {
+				resetD = in
+			}
+		}
+	})
+	ok := unlockD != nil && resetD != nil && instrReaches(unlockD, resetD) && !instrReaches(resetD, unlockD)
+	c.Check(ok, R, "order:the shared Retry buffer is reset before the mutex is released", c.P.Pos(g.Pos()),
+		"deferred calls run last-in-first-out: `defer Unlock` must be registered before `defer Reset`, otherwise a concurrent caller's input is wiped by the late Reset and its integrity tag is wrong")
+}
+
+// C09.10: what planInitialFlight stores for sending is exactly what validateInitialFlight accepted.
+func c09ValidatedIsSent(c *Ctx) {
+	const R = "C09.10"
+	f := c.fn("", "uPacketPacker", "planInitialFlight")
+	val := c.obj("", "", "validateInitialFlight")
+	fp := c.fld("", "uPacketPacker", "flightPayloads")
+	var validated ssa.Value
+	for _, in := range findInstrsLocal(f, CallsTo(val)) {
+		validated = in.(ssa.CallInstruction).Common().Args[0]
+	}
+	n := 0
+	for _, in := range findInstrsLocal(f, StoresTo(fp)) {
+		n++
+		c.Check(validated != nil && sameValue(in.(*ssa.Store).Val, validated), R, "same:the stored flight is the validated flight", c.P.InstrPos(in),
+			"validateInitialFlight proves that the payloads cover every byte of the ClientHello; storing a subset or a different list sends a ClientHello with a hole")
+	}
+	c.Floor(R, "stores of flightPayloads in planInitialFlight", n, 1)
+}
+
+// C10.9: a planned Initial advances the datagram index; the per-packet PN-length list takes precedence over the
+// deprecated single value at installation time too.
+func c10PlannedIndexAndPrecedence(c *Ctx) {
+	const R = "C10.9"
+	f := c.fn("", "uPacketPacker", "packPlannedInitial")
+	idx := c.fld("", "uPacketPacker", "initialDatagramIdx")
+	fp := c.fld("", "uPacketPacker", "flightPayloads")
+	pops := findInstrsLocal(f, StoresTo(fp))
+	c.Floor(R, "flight pops in packPlannedInitial", len(pops), 1)
+	for _, pop := range pops {
+		pop := pop
+		inc := func(in ssa.Instruction) bool {
+			st, ok := in.(*ssa.Store)
+			return ok && fieldOfAddress(st.Addr) == idx && BinV(token.ADD, Load(idx), ConstI(1))(st.Val)
+		}
+		c.cut(R, "pair:a datagram taken from the planned flight advances initialDatagramIdx", &Cut{Fn: f, Start: func(i ssa.Instruction) bool { return i == pop }, Target: func(in ssa.Instruction) bool {
+			r, ok := in.(*ssa.Return)
+			return ok && len(retResults(r)) == 2 && IsNil()(retResults(r)[1])
+		}, Barrier: inc}, "the index selects the InitialPacketPlan (exact size, padding) of each datagram: left at 0, every datagram of the flight is sized like the first")
+	}
+	ctor := c.funcVar("", "newUClientConnection")
+	single := c.obj("internal/ackhandler", "", "SetInitialPacketNumberLength")
+	list := c.fld("", "InitialPacketSpec", "InitPacketNumberLengths")
+	n := 0
+	for _, in := range findInstrsLocal(ctor, CallsTo(single)) {
+		n++
+		okE := dominatedByEdge(in.Block(), Rel{Op: token.GTR, X: LenOf(Load(list)), Y: ConstI(0)}, true) || dominatedByEdge(in.Block(), Rel{Op: token.EQL, X: LenOf(Load(list)), Y: ConstI(0)}, false)
+		c.Check(okE, R, "precedence:the single PN length is installed only when the per-packet list is empty", c.P.InstrPos(in),
+			"documented contract: InitPacketNumberLength is ignored when InitPacketNumberLengths is non-empty")
+	}
+	c.Floor(R, "SetInitialPacketNumberLength calls in newUClientConnection", n, 1)
+}
+
+// C09.11: unsigned arithmetic in the spec-driven builders does not wrap in loop guards: a loop bound of the form
+// n-1 on an unsigned count is dominated by n >= 1.
+func c09NoUnsignedWrapInGuards(c *Ctx) {
+	const R = "C09.11"
+	n := 0
+	for _, spec := range [][3]string{{"", "QUICRandomFrames", "buildInternal"}, {"", "", "splitRange"}, {"", "QUICRandomFlightDatagram", "build"}} {
+		f, err := c.P.Func1(spec[0], spec[1], spec[2])
+		if err != nil {
+			continue
+		}
+		for _, b := range f.Blocks {
+			ifi, ok := b.Instrs[len(b.Instrs)-1].(*ssa.If)
+			if !ok {
+				continue
+			}
+			cmp, ok := ifi.Cond.(*ssa.BinOp)
+			if !ok || !isCmp(cmp.Op) {
+				continue
+			}
+			for _, side := range []ssa.Value{cmp.X, cmp.Y} {
+				sub, ok := stripConv(side).(*ssa.BinOp)
+				if !ok || sub.Op != token.SUB {
+					continue
+				}
+				bt, ok := sub.Type().Underlying().(*types.Basic)
+				if !ok || bt.Info()&types.IsUnsigned == 0 {
+					continue
+				}
+				k, isK := constInt64Of(sub.Y)
+				if !isK || k <= 0 {
+					continue
+				}
+				n++
+				okG := dominatedByEdge(b, Rel{Op: token.GEQ, X: Same(sub.X), Y: ConstI(k)}, false) || dominatedByEdge(b, Rel{Op: token.GTR, X: Same(sub.X), Y: ConstI(k - 1)}, false)
+				// or the minuend has a known positive lower bound (clamps such as min(max(n, 1), m) with m > 0)
+				if lowerBound(sub.X, b, 0) >= k {
+					okG = true
+				}
+				c.Check(okG, R, fmt.Sprintf("guard:%s unsigned %s-%d in a loop/branch condition cannot wrap", funcName(f), sub.X.Name(), k), c.P.InstrPos(cmp),
+					"an unsigned count minus a constant wraps to 2^64-1 for small counts (e.g. an empty CRYPTO slice on a PTO probe): the loop then never ends")
+			}
+		}
+	}
+	c.Count("C09.11 unsigned differences in conditions", n)
+}
+
+// lowerBound: a constant lower bound of an unsigned/int value established by construction or by dominating comparisons.
+func lowerBound(v ssa.Value, at *ssa.BasicBlock, depth int) int64 {
+	if depth > 6 || v == nil {
+		return 0
+	}
+	if k, ok := constInt64Of(v); ok {
+		return k
+	}
+	best := int64(0)
+	for _, k := range []int64{1, 2, 3, 4} {
+		if dominatedByEdge(at, Rel{Op: token.GEQ, X: Same(v), Y: ConstI(k)}, false) || dominatedByEdge(at, Rel{Op: token.GTR, X: Same(v), Y: ConstI(k - 1)}, false) {
+			best = k
+		}
+	}
+	switch x := v.(type) {
+	case *ssa.Convert:
+		if lb := lowerBound(x.X, at, depth+1); lb > best {
+			best = lb
+		}
+	case *ssa.Call:
+		switch builtinName(&x.Call) {
+		case "max":
+			for _, a := range x.Call.Args {
+				if lb := lowerBound(a, at, depth+1); lb > best {
+					best = lb
+				}
+			}
+		case "min":
+			m := int64(-1)
+			for _, a := range x.Call.Args {
+				lb := lowerBound(a, at, depth+1)
+				if m < 0 || lb < m {
+					m = lb
+				}
+			}
+			if m > best {
+				best = m
+			}
+		}
+	}
+	return best
+}
